@@ -1220,6 +1220,7 @@ static void vbi_proxyd_stop_acq_thread( PROXY_DEV * p_proxy_dev )
 {
    struct timespec tsp;
    int ret;
+   int retry;
    int vbi_fd;
 
    assert(p_proxy_dev->use_thread);
@@ -1230,11 +1231,20 @@ static void vbi_proxyd_stop_acq_thread( PROXY_DEV * p_proxy_dev )
       p_proxy_dev->wait_for_exit = TRUE;
       pthread_cancel(p_proxy_dev->thread_id);
 
-      vbi_proxyd_calc_timeout_ms(&tsp, 50);
-      ret = pthread_cond_timedwait(&p_proxy_dev->start_cond, &p_proxy_dev->start_mutex, &tsp);
+      /* the thread acts on the cancellation as soon as it is scheduled (read and select are
+      ** cancellation points); on a busy machine that can take much longer than 50ms */
+      retry = 0;
+      do
+      {
+         vbi_proxyd_calc_timeout_ms(&tsp, 50);
+         ret = pthread_cond_timedwait(&p_proxy_dev->start_cond, &p_proxy_dev->start_mutex, &tsp);
+         retry += 1;
+      } while ((ret != 0) && (retry < 100));
+
       if (ret != 0)
-      {  /* thread did not stop within 50ms: probably blocked in read with no incoming data */
+      {  /* thread did not stop within 5s: probably blocked in read with no incoming data */
          /* dirty hack: force to wake up by closing the file handle */
+         /* (last resort: the device is of no use any more to a thread started afterwards) */
          vbi_fd = vbi_capture_fd(p_proxy_dev->p_capture);
          close(vbi_fd);
          dprintf(DBG_MSG, "stop_acq_thread: thread did not exit (%d): closed VBI filehandle %d\n", ret, vbi_fd);
